@@ -20,6 +20,7 @@ H = {
                                    native="let v = i64::from_le_bytes({V0});\n        let a: crate::PaymentAmount = bincode_free_amount(v);\n        let _ = a.to_scalar();"),
     "balance_to_scalar_total": dict(crate="zkabacus-crypto", what="Balance::to_scalar total for all u64", functions=["za.Balance::to_scalar"]),
     "balance_decode_invariant": dict(crate="zkabacus-crypto", what="decoding a CustomerBalance/MerchantBalance from any u64 wire value succeeds iff value <= 2^63-1 and is lossless (real serde derive of the three newtypes; all u64)", functions=["serde derive Deserialize for Balance"]),
+    "channel_id_from_str_exact": dict(crate="zkabacus-crypto", what="ChannelId::from_str: Ok iff the base64 decoding (recording stub, any result of length <= 40 or an error) has exactly 32 bytes, and then the id is exactly those bytes; every other decoding result is an error, never a panic", functions=["states.<ChannelId as FromStr>::from_str"]),
     "array_visitor_total_n1": dict(crate="zkchannels-crypto", what="[G;1] sequence visitor: value or error (no panic) for any announced length <= N+2 and any size hint; Ok iff exactly N elements", functions=["serde.<[G; N] as SerializeElement>::deserialize"], note="complete for code that stops at capacity: the first N+1 steps of any longer sequence are identical"),
     "array_visitor_total_n5": dict(crate="zkchannels-crypto", what="[G;5] sequence visitor: value or error (no panic) for any announced length <= N+2 and any size hint; Ok iff exactly N elements", functions=["serde.<[G; N] as SerializeElement>::deserialize"]),
     "boxed_array_visitor_total_n1": dict(crate="zkchannels-crypto", what="Box<[G;1]> codec: value or error for any announced length", functions=["serde.<Box<[G; N]> as SerializeElement>::deserialize"]),
